@@ -291,6 +291,7 @@ pub fn run(args: &[String], out: &mut Sink) {
     let cases: usize = arg(args, "--cases").and_then(|s| s.parse().ok()).unwrap_or(2);
     let focus = arg(args, "--focus").unwrap_or("general".into());
     let nops: usize = arg(args, "--nops").and_then(|s| s.parse().ok()).unwrap_or(8);
+    let image_driver: Option<String> = arg(args, "--image-driver");
     let steps_per_case: usize = arg(args, "--steps").and_then(|s| s.parse().ok()).unwrap_or(2);
     let stride: u64 = arg(args, "--stride").and_then(|s| s.parse().ok()).unwrap_or(1);
     let mode = arg(args, "--mode").unwrap_or("crash".into()); // crash | power | fault | nested
@@ -568,9 +569,46 @@ pub fn run(args: &[String], out: &mut Sink) {
                                 let mut m = base.clone();
                                 m.insert([0xA5; 32], vec![0x5A; 77]);
                                 let expect = hex(&ref_root(&m.iter().map(|(k, v)| (*k, vhash(v))).collect::<Vec<_>>()));
+                                let followup_ok = matches!(&rep.followup, Some((a, b)) if *a == expect && *b == expect);
                                 match &rep.followup {
                                     Some((a, b)) if *a == expect && *b == expect => out.count("followup_ok"),
                                     other => out.fail(format!("{prop} follow-up commit after recovery gives {:?}, expected root {expect}: {desc}", other)),
+                                }
+                                // C16 on recovered crash images: the directory as recovery + one more commit left it must
+                                // decode (Lean image monitor: page ownership, key order, every stored merkle page = nodeAt,
+                                // table well-formed) to exactly the state the API reported
+                                if let (Some(driver), true) = (&image_driver, followup_ok) {
+                                    let exp = format!("{d}.expected");
+                                    let body: String = m.iter().map(|(k, v)| format!("{} {} {}\n", hex(k), hex(&vhash(v)), v.len())).collect();
+                                    let _ = std::fs::write(&exp, body);
+                                    let res = Command::new(driver)
+                                        .arg("image")
+                                        .stdin(std::process::Stdio::piped())
+                                        .stdout(std::process::Stdio::piped())
+                                        .stderr(std::process::Stdio::null())
+                                        .spawn()
+                                        .and_then(|mut c| {
+                                            use std::io::Write;
+                                            c.stdin.take().unwrap().write_all(format!("check {d} {exp}\n").as_bytes())?;
+                                            c.wait_with_output()
+                                        });
+                                    out.count("recovered_images_checked");
+                                    match res {
+                                        Ok(o) => {
+                                            let line = String::from_utf8_lossy(&o.stdout).lines().next().unwrap_or("").to_string();
+                                            if line.starts_with("ok ") {
+                                                out.count("recovered_images_ok");
+                                                if line.contains("ln_leaked=0") && line.contains("bbn_leaked=0") {
+                                                } else {
+                                                    out.count("recovered_images_with_leaked_pages");
+                                                }
+                                            } else {
+                                                out.fail(format!("C16 image monitor on the recovered directory: {} after {desc}", line.chars().take(300).collect::<String>()));
+                                            }
+                                        }
+                                        Err(e) => out.fail(format!("C16 image driver could not be run: {e}")),
+                                    }
+                                    let _ = std::fs::remove_file(&exp);
                                 }
                             }
                         }
